@@ -3,7 +3,8 @@
 (* utils.readable_count:  n = the count as a bit sequence, s = the returned  *)
 (* string as the sequence of its characters (lossless).  The verdict is the  *)
 (* first failing oracle clause of Stats!ReadableClause; pos = 1 when the     *)
-(* design layer (Threshold as configured) predicts a different string        *)
+(* design layer (Threshold as configured in Trace_Stats.cfg: "byLength"      *)
+(* since fix 7cbc19a of /repo, "gt10" before) predicts a different string     *)
 (* (reported as DRIFT by the harness, never a verdict); the design is only   *)
 (* consulted for the cases the harness marks with d = 1.                     *)
 EXTENDS Stats, Json, IOUtils, TLC
